@@ -48,7 +48,7 @@ func rulesC13(c *Ctx) {
 	if lst, ok := lk.Underlying().(*types.Struct); ok {
 		for i := 0; i < lst.NumFields(); i++ {
 			if _, isFn := lst.Field(i).Type().Underlying().(*types.Signature); isFn {
-				unlockField = lst.Field(i).Name()
+				unlockField = refFieldName(lastSeg(typeString(lk)), lst.Field(i).Name())
 			}
 		}
 	}
